@@ -17,7 +17,7 @@ invariant `WF t`, any value list.  `WF t` (names of the positional attributes di
 count on optional, no given_or_derived attribute with a declared value) is what `InitFromHash` establishes:
 `C17_wf_define` proves it for EVERY definition accepted by `define` over an environment of accepted definitions,
 `C17_wf_env` for every type of every accepted list of definitions (any inheritance depth), given only the shape the
-driver's universe guarantees (`DefShape`: own attribute names distinct — a hash literal).
+driver's universe guarantees (`DefShape`: the keys of `attributes` and of `constants` distinct — hash literals).
 
 Full statement / proved / missing
 * `C17_get`            — proved: `get (newPos t vs) a = vs[pos a]` or, beyond the given values, the default
@@ -60,13 +60,15 @@ namespace Pcore.Object
 
 /-! ### what `InitFromHash` establishes: every accepted definition satisfies the layout invariant -/
 
-/-- the part of a definition's shape the universe of the driver guarantees: own attribute names distinct (a hash literal) -/
+/-- the part of a definition's shape the universe of the driver guarantees: the keys of the `attributes` hash and of the
+    `constants` hash are distinct (hash literals) -/
 structure DefShape (d : Def) : Prop where
   names : (d.attrs.map (·.name)).Nodup
+  constNames : (d.constants.map (·.1)).Nodup
 
 theorem C17_wf_define {env : List OType} {d : Def} {t : OType} (henv : ∀ t' ∈ env, TypeOK t') (hd : DefShape d)
     (h : define env d = .ok t) : TypeOK t ∧ WF t :=
-  define_wf henv hd.names h
+  define_wf henv hd.names hd.constNames h
 
 /-- any number of definitions, any inheritance depth: every type of the resulting environment is well laid out -/
 theorem C17_wf_env {env0 env : List OType} {ds : List Def} (h0 : ∀ t ∈ env0, TypeOK t ∧ WF t)
@@ -92,17 +94,21 @@ theorem C17_wf_noSerialization {l : Level} {p : OType} (hok : TypeOK (l :: p)) (
 
 /-! ### every definition the declared schema admits is accepted -/
 
-/-- a well-formed definition, in the model's terms: attributes well-formed on their own, each a fresh name or a proper
-    override of an inherited attribute; equality names are (own or inherited) attributes that are not constants and not already part of
+/-- a well-formed definition, in the model's terms: no name both in `attributes` and in `constants`; the attribute
+    specifications (`attributes`, then `constants` with their inferred type) well-formed on their own, each a fresh name or a
+    proper override of an inherited attribute; equality names are (own or inherited) attributes that are not constants and not already part of
     an inherited equality; serialization names are attributes with a position, required never after optional -/
 structure WellFormedDef (env : List OType) (d : Def) : Prop where
-  attrs : ∀ a ∈ d.attrs, AttrDeclOK a
-  override : ∀ a ∈ d.attrs, OverrideOK (parentOf env d) a
-  equality : ∀ as, defineAttrs (parentOf env d) d.attrs = .ok as → ∀ n ∈ d.equality.toList?.getD [],
-    ∃ a, lookupMember as (parentOf env d) n = some a ∧ a.kind ≠ .constant ∧ n ∉ equalityAttributes (parentOf env d)
-  serialization : ∀ as, defineAttrs (parentOf env d) d.attrs = .ok as → ∀ ser, d.serialization = some ser →
-    (∀ n ∈ ser, ∃ a, lookupMember as (parentOf env d) n = some a ∧ a.settable = true) ∧
-      SerSorted as (parentOf env d) ser ∧ ser.Nodup
+  noBoth : d.constants.any (fun c => d.attrs.any (fun a => a.name == c.1)) = false
+  attrs : ∀ a ∈ d.decls (parentOf env d), AttrDeclOK a
+  override : ∀ a ∈ d.decls (parentOf env d), OverrideOK (parentOf env d) a
+  equality : ∀ as, defineAttrs (parentOf env d) (d.decls (parentOf env d)) = .ok as →
+    ∀ n ∈ d.equality.toList?.getD [],
+      ∃ a, lookupMember as (parentOf env d) n = some a ∧ a.kind ≠ .constant ∧ n ∉ equalityAttributes (parentOf env d)
+  serialization : ∀ as, defineAttrs (parentOf env d) (d.decls (parentOf env d)) = .ok as →
+    ∀ ser, d.serialization = some ser →
+      (∀ n ∈ ser, ∃ a, lookupMember as (parentOf env d) n = some a ∧ a.settable = true) ∧
+        SerSorted as (parentOf env d) ser ∧ ser.Nodup
 
 /-- model-level statement of "every definition the schema admits is accepted".  Missing (not modelled): that the parsed
     text / init-hash of such a definition is an instance of the Struct `TypeObjectInitHash` (checked by the
@@ -117,7 +123,7 @@ theorem C17_schema_partial {env : List OType} {d : Def} (h : WellFormedDef env d
       rw [hs]
       exact checkSerialization_succeeds h1 (fun hb => by cases hb) h2 h3 (by simp)
   unfold define
-  simp only [has, heq, hser]
+  simp only [h.noBoth, Bool.false_eq_true, if_false, has, heq, hser]
   exact ⟨_, rfl⟩
 
 /-! ### … and its init-hash is an instance of the declared schema `TypeObjectInitHash` (regenerated table) -/
@@ -129,26 +135,29 @@ theorem C17_schema_table_ok : schemaOKb Pcore.Generated.objectSchema = true := b
 /-- every name of the definition matches MemberNamePattern (what the driver's universe guarantees: `nameOf`) -/
 structure DefNamesValid (d : Def) : Prop where
   attrs : ∀ a ∈ d.attrs, memberName a.name = true
+  constants : ∀ c ∈ d.constants, memberName c.1 = true
   equality : ∀ n ∈ d.equality.toList?.getD [], memberName n = true
   serialization : ∀ ser, d.serialization = some ser → ∀ n ∈ ser, memberName n = true
 
-theorem keys_nodup : ∀ b1 b2 b3 b4 b5 b6 : Bool,
+theorem keys_nodup : ∀ b1 b2 b3 b4 b5 b6 b7 : Bool,
     ((if b1 then ["name"] else []) ++ (if b2 then ["parent"] else []) ++ (if b3 then ["attributes"] else []) ++
+     (if b7 then ["constants"] else []) ++
      (if b4 then ["equality"] else []) ++ (if b5 then ["equality_include_type"] else []) ++
      (if b6 then ["serialization"] else [])).Nodup := by
-  intro b1 b2 b3 b4 b5 b6
-  cases b1 <;> cases b2 <;> cases b3 <;> cases b4 <;> cases b5 <;> cases b6 <;> decide
+  intro b1 b2 b3 b4 b5 b6 b7
+  cases b1 <;> cases b2 <;> cases b3 <;> cases b4 <;> cases b5 <;> cases b6 <;> cases b7 <;> decide
 
 theorem defHash_keys (name : Option String) (pk : Bool) (d : Def) :
     (defHash name pk d).map (·.1) =
       (if name.isSome then ["name"] else []) ++ (if pk then ["parent"] else []) ++
       (if !d.attrs.isEmpty then ["attributes"] else []) ++
+      (if !d.constants.isEmpty then ["constants"] else []) ++
       (if d.equality != .absent then ["equality"] else []) ++
       (if d.includeType.isSome then ["equality_include_type"] else []) ++
       (if d.serialization.isSome then ["serialization"] else []) := by
   unfold defHash
-  cases name <;> cases pk <;> cases d.attrs.isEmpty <;> cases d.equality <;> cases d.includeType <;>
-    cases d.serialization <;> rfl
+  cases name <;> cases pk <;> cases d.attrs.isEmpty <;> cases d.constants.isEmpty <;> cases d.equality <;>
+    cases d.includeType <;> cases d.serialization <;> rfl
 
 /-- for ANY member table satisfying the side condition, the init-hash of every definition of the universe — as parsed
     text (no `name`/`parent` entry) or as a complete init-hash — is an instance of the Struct, whatever the definition
@@ -158,13 +167,13 @@ theorem C17_schema_admits (s : Schema) (hs : schemaOKb s = true) (d : Def) (hd :
     structInst s.members (defHash name pk d) = true := by
   unfold schemaOKb at hs
   simp only [Bool.and_eq_true, decide_eq_true_eq, List.all_eq_true, beq_iff_eq] at hs
-  obtain ⟨⟨⟨⟨⟨⟨⟨⟨⟨hnd, hopt⟩, h1⟩, h2⟩, h3⟩, h4⟩, h5⟩, h6⟩, _⟩, _⟩ := hs
+  obtain ⟨⟨⟨⟨⟨⟨⟨⟨⟨⟨hnd, hopt⟩, h1⟩, h2⟩, h3⟩, h7⟩, h4⟩, h5⟩, h6⟩, _⟩, _⟩ := hs
   apply structInst_of hnd hopt
-  · rw [defHash_keys]; exact keys_nodup _ _ _ _ _ _
+  · rw [defHash_keys]; exact keys_nodup _ _ _ _ _ _ _
   · intro e he
     unfold defHash at he
     simp only [List.mem_append] at he
-    rcases he with ((((he | he) | he) | he) | he) | he
+    rcases he with (((((he | he) | he) | he) | he) | he) | he
     · cases name with
       | none => simp at he
       | some n =>
@@ -186,6 +195,15 @@ theorem C17_schema_admits (s : Schema) (hs : schemaOKb s = true) (d : Def) (hd :
         simp only [sinst, List.all_eq_true, List.mem_map]
         rintro n ⟨a, ha, rfl⟩
         exact hd.attrs a ha
+    · by_cases hemp : d.constants.isEmpty = true
+      · simp [hemp] at he
+      · simp [hemp] at he; subst he
+        obtain ⟨m, hm, hmn, hmt⟩ := memberTy_mem h7
+        refine ⟨m, hm, hmn, ?_⟩
+        rw [hmt]
+        simp only [sinst, List.all_eq_true, List.mem_map]
+        rintro n ⟨c, hc, rfl⟩
+        exact hd.constants c hc
     · obtain ⟨m, hm, hmn, hmt⟩ := memberTy_mem h4
       cases hq : d.equality with
       | absent => simp [hq] at he
@@ -603,8 +621,8 @@ theorem C17_subtype_strict {p t : OType} (h : p <:+ t) (hne : p ≠ t) (o : Obj)
 
 def sampleDefs : List Def := [
   { parent := none,
-    attrs := [{ name := "a", ty := .int, kind := .normal, dflt := none },
-              { name := "k", ty := .int, kind := .constant, dflt := some (.int 7) }],
+    attrs := [{ name := "a", ty := .int, kind := .normal, dflt := none }],
+    constants := [("k", .int 7)],          -- `constants => {k => 7}`: type inferred, kind constant
     equality := .many ["a"], includeType := none, serialization := none },
   { parent := some 0,
     attrs := [{ name := "b", ty := .opt .str, kind := .normal, dflt := none },
@@ -636,10 +654,10 @@ theorem sampleShape : ∀ d ∈ sampleDefs, DefShape d := by
   intro d hd
   simp only [sampleDefs, List.mem_cons, List.not_mem_nil, or_false] at hd
   rcases hd with rfl | rfl | rfl | rfl
-  · exact ⟨by decide⟩
-  · exact ⟨by decide⟩
-  · exact ⟨by decide⟩
-  · exact ⟨by decide⟩
+  · exact ⟨by decide, by decide⟩
+  · exact ⟨by decide, by decide⟩
+  · exact ⟨by decide, by decide⟩
+  · exact ⟨by decide, by decide⟩
 
 theorem sampleWF : WF sampleT2 :=
   (C17_wf_env (env0 := []) (by simp) sampleShape (rfl : defineAll [] sampleDefs = .ok sampleEnv) sampleT2
@@ -690,17 +708,23 @@ example : isInstance sampleT0 { typ := sampleT2, values := [.int 1] } = true ∧
     isInstance sampleT2 { typ := sampleT0, values := [.int 1] } = false := ⟨rfl, rfl⟩
 /-- hypotheses of `C17_schema_partial`: the first sample definition is well-formed in the model's terms -/
 example : WellFormedDef [] (sampleDefs.headD default) := by
-  refine ⟨?_, ?_, ?_, ?_⟩
+  have hdecls : (sampleDefs.headD default).decls (parentOf [] (sampleDefs.headD default)) =
+      [{ name := "a", ty := .int, kind := .normal, dflt := none },
+       { name := "k", ty := .int, kind := .constant, dflt := some (.int 7) }] := rfl
+  refine ⟨rfl, ?_, ?_, ?_, ?_⟩
   · intro a ha
-    simp only [sampleDefs, List.headD_cons, List.mem_cons, List.not_mem_nil, or_false] at ha
+    rw [hdecls] at ha
+    simp only [List.mem_cons, List.not_mem_nil, or_false] at ha
     rcases ha with rfl | rfl <;> simp [AttrDeclOK, inst]
   · intro a ha
-    simp only [sampleDefs, List.headD_cons, List.mem_cons, List.not_mem_nil, or_false] at ha
+    rw [hdecls] at ha
+    simp only [List.mem_cons, List.not_mem_nil, or_false] at ha
     rcases ha with rfl | rfl <;> simp [OverrideOK, parentOf, findAttr, sampleDefs]
   · intro as has n hn
     have : as = [{ name := "a", ty := .int, kind := .normal, value := none },
                  { name := "k", ty := .int, kind := .constant, value := some (.int 7), final := true }] := by
-      have h' : defineAttrs (parentOf [] (sampleDefs.headD default)) (sampleDefs.headD default).attrs = .ok
+      have h' : defineAttrs (parentOf [] (sampleDefs.headD default))
+          ((sampleDefs.headD default).decls (parentOf [] (sampleDefs.headD default))) = .ok
           [{ name := "a", ty := .int, kind := .normal, value := none },
            { name := "k", ty := .int, kind := .constant, value := some (.int 7), final := true }] := rfl
       rw [h'] at has; exact (Except.ok.inj has).symm
